@@ -374,3 +374,9 @@ class CppGenerator(GeneratorBase):
         for n in nodes:
             if isinstance(n, (model.Struct, model.Union)) and n.byte_size is None:
                 raise GenerateError('{0} byte size unknown'.format(n.name))
+            if isinstance(n, model.Struct):
+                for i, m in enumerate(n.members):
+                    if m.bound and m.bound not in (x.name for x in n.members[:i]):
+                        raise GenerateError('Sizing member {} of array {}.{} not found'.format(m.bound, n.name, m.name))
+                    if (m.greedy or m.kind == model.Kind.UNLIMITED) and m is not n.members[-1]:
+                        raise GenerateError('Greedy member {}.{} is not the last one'.format(n.name, m.name))
